@@ -7,7 +7,7 @@ VERIF = os.path.dirname(os.path.dirname(os.path.abspath(__file__)))
 
 # id -> (technique, level text, level note, design ref)
 CHECKS = {
-    "C15": ("differential oracle over compilations: artefact hashes (bytecode listing, WASM bytes, state layout, outputs) back to back, before and after random compilation histories (also histories of projects whose external modules share names), and in fresh processes",
+    "C15": ("differential oracle over compilations: artefact hashes (bytecode listing, WASM bytes, state layout, outputs) back to back, before and after random compilation histories (also histories of projects whose external modules share names, and of compilations that fail: macro-stage panic, rejected text), and in fresh processes",
             "Each program is compiled repeatedly in one process (also after up to 50 other programs) and in 4-8 fresh processes with their own hash seeds; the four artefacts named by the property are hashed and must be identical everywhere.",
             "FNV-1a hash + length stand in for byte equality; a fresh process gets fresh RandomState keys.", "DESIGN.md §3 C15"),
     "C12": ("counter-equality monitor at quiescent points (Machine.closures / Machine.heap after sample W+N vs W+2N) + handle-validity hooks, over generated closure-heavy programs, shipped sources and mutations",
@@ -22,10 +22,10 @@ CHECKS = {
     "C11": ("model-based oracle with unique power-of-two task weights: per-sample accumulator comparison of both runtimes against a multiset model",
             "Generated task sets (global scope / from dsp / from running tasks / self-rescheduling chains, fractional and equal times, up to 2000 pending, three insertion orders) are run on VM and WASM; every sample's accumulators must equal a 20-line model in which each task runs exactly once before dsp of sample floor(t). Unique weights turn a missing, early or duplicated run into one f64 mismatch.",
             "Effects commute so same-sample order is free; WASM is judged only on task sets outside the two recorded WASM findings (closures allocated in the per-tick arena, more than 40 tasks from global scope).", "DESIGN.md §3 C11"),
-    "C07": ("model-based trace oracle: per-channel Rust models of voice templates with unmatchable state shapes, edit histories (insert/delete/replace/nest/constant/compile error) with hot swaps on both runtimes",
+    "C07": ("model-based trace oracle: per-channel Rust models of voice templates with unmatchable state shapes, edit histories (insert/delete/replace/nest/constant/edit of a voice body that leaves one of its call sites untouched/compile error; one or several edits per swap) with hot swaps on both runtimes",
             "Every channel of every sample after every swap is compared bitwise with an independent model of its voice whose state survives a swap exactly when the property says it must; histories of 1-4 edits at dense early and random later swap times, failed compiles injected between samples.",
             "Voice templates are used at most once per program and survivors are never reordered, so the expected continuation is unambiguous; the models are validated against the uninterrupted run of every case first.", "DESIGN.md §3 C07"),
-    "C06": ("differential oracle: swapped run vs uninterrupted run of the same runtime, all split points 0..8(24) + random, 1-4 consecutive swaps, VM payload and the CLI's WASM preparation path",
+    "C06": ("differential oracle: swapped run vs uninterrupted run of the same runtime, all split points 0..8(24) + random, 1-4 consecutive swaps, VM payload and the CLI's WASM preparation path; generated programs, the enumerated family in which every state word is audible, programs whose global initialiser seeds the state storage, hand-written swap-safe programs (array-valued and sum-typed feedback cells)",
             "For generated stateful programs every split point in a dense initial range plus random later ones is exercised on both runtimes: n samples, 1-4 hot swaps to a fresh compilation of the same source through the same preparation code the CLI uses, m more samples; the stream must equal the uninterrupted run bit for bit.",
             "dsp inputs are a function of the sample index; programs keep signal state in self/mem/delay only (as the property states).", "DESIGN.md §3 C06"),
     "C05": ("online trace checker over hooked state operations (VM instructions + WASM host functions) against the cells of the published skeleton; cursor and VM/WASM state-word comparison after every sample",
